@@ -38,6 +38,7 @@ def main():
     ap.add_argument("--every", type=int, default=1, help="take every n-th mutation")
     ap.add_argument("--files", default=",".join(SQL_FILES + HTML_FILES))
     ap.add_argument("--out", default=os.path.join(VERIF, "notes", "mutation_campaign.jsonl"))
+    ap.add_argument("--retry", default="", help="run only the mutations that are recorded as survived in this earlier result file")
     ap.add_argument("--props", default="", help="override: comma list of properties to run per surviving mutant")
     a = ap.parse_args()
     files = a.files.split(",")
@@ -48,6 +49,13 @@ def main():
             print(out); return 2
         rc, out = sh([os.path.join(root, "mutgen"), REPO] + files)
         muts = [json.loads(l) for l in out.splitlines() if l.startswith("{")]
+        if a.retry:
+            keep = set()
+            for l in open(a.retry):
+                r = json.loads(l)
+                if r.get("outcome") == "survived":
+                    keep.add((r["file"], r["start"], r["end"], r["desc"]))
+            muts = [m for m in muts if (m["file"], m["start"], m["end"], m["desc"]) in keep]
         muts = muts[:: a.every]
         if a.limit:
             muts = muts[: a.limit]
